@@ -39,7 +39,7 @@ theorem eval_pred_trace (env : Env) (i id : Nat) (n : Nat) : ∀ (s : St), s.ter
     congr 1
     omega
 
-example : (evalN ⟨fun _ k => k % 2 == 1, fun _ => 0⟩ (.leaf 0 false (.pred 7)) 4 {}).1 = [false, true, false, true] := by
+example : (evalN { pred := fun _ k => k % 2 == 1, clock := fun _ => 0 } (.leaf 0 false (.pred 7)) 4 {}).1 = [false, true, false, true] := by
   decide
 
 /-! ### terminate() is sticky -/
@@ -75,7 +75,7 @@ theorem terminate_forces_or (t : Cond) (s : St) (i : Nat) (a b : Cond)
 theorem terminate_forces_self (t : Cond) (s : St) : Forced (terminate t s) t :=
   Forced_self _ t (by simp [terminate])
 
-example : (eval ⟨fun _ _ => false, fun _ => 0⟩ (.or 2 (.and 3 (.leaf 0 false .never) (.leaf 1 false .never)) (.leaf 0 false .never))
+example : (eval { pred := fun _ _ => false, clock := fun _ => 0 } (.or 2 (.and 3 (.leaf 0 false .never) (.leaf 1 false .never)) (.leaf 0 false .never))
     (terminate (.leaf 0 false .never) {})).1 = true := by decide
 
 /-! ### or / and -/
@@ -95,7 +95,7 @@ theorem and_spec (env : Env) (i : Nat) (a b : Cond) (s : St) (h : s.term i = fal
   simp only [eval, h]
   cases hx : (eval env a s).1 <;> simp
 
-example : (eval ⟨fun _ _ => true, fun _ => 0⟩ (.or 2 (.leaf 0 false (.pred 0)) (.leaf 1 false (.pred 1))) {}).2.calls 1 = 0 := by
+example : (eval { pred := fun _ _ => true, clock := fun _ => 0 } (.or 2 (.leaf 0 false (.pred 0)) (.leaf 1 false (.pred 1))) {}).2.calls 1 = 0 := by
   decide
 
 /-! ### the constant conditions -/
@@ -110,48 +110,50 @@ theorem never_const (env : Env) (i : Nat) (s : St) : (eval env (.leaf i false .n
   · rename_i h; simp [h]
   · rename_i h; simp [callLeaf, h]
 
-/-! ### the iteration-count condition -/
+/-! ### the iteration-count condition
 
-/-- closed form for every `k`, every `n`, every starting counter: the `j`-th evaluation (0-based)
-answers `(c₀ + j + 1) mod 2^32 > n`. -/
+`timesCalled_` is an `unsigned long long` since /repo 354f9f45d; the model counts modulo `env.ctrMod`
+(`counterMod = 2^64` by default, `oldCounterMod = 2^32` = the code before the fix). -/
+
+/-- closed form for every `k`, every `n`, every starting counter, every counter width: the `j`-th
+evaluation (0-based) answers `(c₀ + j + 1) mod ctrMod > n`. -/
 theorem iter_evalN (env : Env) (i n : Nat) (k : Nat) : ∀ (s : St), s.term i = false →
     (evalN env (.leaf i false (.iter n)) k s).1 =
-      (List.range k).map (fun j => decide ((s.cnt i + j + 1) % uintMod > n)) := by
+      (List.range k).map (fun j => decide ((s.cnt i + j + 1) % env.ctrMod > n)) := by
   induction k with
   | zero => intro s _; rfl
   | succ k ih =>
     intro s h
     have ht : (eval env (.leaf i false (.iter n)) s).2.term i = false := by rw [eval_term]; exact h
-    have h1 : (eval env (.leaf i false (.iter n)) s).1 = decide ((s.cnt i + 1) % uintMod > n) := by
+    have h1 : (eval env (.leaf i false (.iter n)) s).1 = decide ((s.cnt i + 1) % env.ctrMod > n) := by
       simp [eval, h, callLeaf]
-    have h2 : (eval env (.leaf i false (.iter n)) s).2.cnt i = (s.cnt i + 1) % uintMod := by
+    have h2 : (eval env (.leaf i false (.iter n)) s).2.cnt i = (s.cnt i + 1) % env.ctrMod := by
       simp [eval, h, callLeaf]
     simp only [evalN, List.range_succ_eq_map, List.map_cons, List.map_map]
     rw [ih _ ht, h1, h2]
     simp only [Nat.add_zero, List.cons.injEq, true_and]
     apply List.map_congr_left
     intro j _
-    simp only [Function.comp, Nat.succ_eq_add_one, uintMod]
-    congr 2
-    omega
+    simp only [Function.comp, Nat.succ_eq_add_one]
+    rw [mod_step]
 
 /-- every interleaving: the evaluations of an iteration condition may be separated by arbitrary
 batches of other operations (evaluations, polls and terminations of conditions that do not contain
 this impl, solution reports, cost reports, new cost-convergence conditions); the `j`-th evaluation
-still answers `(c₀ + j + 1) mod 2^32 > n`. -/
+still answers `(c₀ + j + 1) mod ctrMod > n`. -/
 theorem iter_spec_interleaved {α} [PNum α] (env : Env) (i n : Nat) (segs : List (List (Op α))) :
     ∀ (w : World α), w.st.term i = false → CbOk i w → (∀ seg ∈ segs, ∀ op ∈ seg, NoTouch i op) →
     (interleave env (.leaf i false (.iter n)) segs w).1 =
-      (List.range segs.length).map (fun j => decide ((w.st.cnt i + j + 1) % uintMod > n)) := by
+      (List.range segs.length).map (fun j => decide ((w.st.cnt i + j + 1) % env.ctrMod > n)) := by
   induction segs with
   | nil => intro w _ _ _; rfl
   | cons seg rest ih =>
     intro w ht hcb hall
     obtain ⟨f1, f2, f3⟩ := run_frame env i seg w (hall seg (List.mem_cons_self ..)) hcb
     have ht1 : (w.run env seg).st.term i = false := f1.trans ht
-    have h1 : (eval env (.leaf i false (.iter n)) (w.run env seg).st).1 = decide ((w.st.cnt i + 1) % uintMod > n) := by
+    have h1 : (eval env (.leaf i false (.iter n)) (w.run env seg).st).1 = decide ((w.st.cnt i + 1) % env.ctrMod > n) := by
       simp [eval, ht1, callLeaf, f2]
-    have h2 : (eval env (.leaf i false (.iter n)) (w.run env seg).st).2.cnt i = (w.st.cnt i + 1) % uintMod := by
+    have h2 : (eval env (.leaf i false (.iter n)) (w.run env seg).st).2.cnt i = (w.st.cnt i + 1) % env.ctrMod := by
       simp [eval, ht1, callLeaf, f2]
     have h3 : (eval env (.leaf i false (.iter n)) (w.run env seg).st).2.term i = false := by
       rw [eval_term]; exact ht1
@@ -162,45 +164,56 @@ theorem iter_spec_interleaved {α} [PNum α] (env : Env) (i n : Nat) (segs : Lis
     simp only [Nat.add_zero, List.cons.injEq, true_and]
     apply List.map_congr_left
     intro j _
-    simp only [Function.comp, Nat.succ_eq_add_one, uintMod]
-    congr 2
-    omega
+    simp only [Function.comp, Nat.succ_eq_add_one]
+    rw [mod_step]
 
-/-- the property for the first 2^32 - 1 evaluations of a fresh condition: evaluation number `j+1` is
-false while `j+1 ≤ n` and true from `n+1` on.
-
-Full statement (no bound on `j`):
-  `∀ j < k, (evalN …).1[j]? = some (decide (n < j + 1))` - refuted by `iter_spec_fails`. -/
-theorem iter_spec_partial (env : Env) (i n k : Nat) (s : St) (h : s.term i = false) (h0 : s.cnt i = 0)
-    (j : Nat) (hj : j < k) (hsmall : j + 1 < uintMod) :
+/-- **the property, at full strength for the code as it is** (64-bit counter): a fresh iteration
+condition is false for its first `n` evaluations and true from the `(n+1)`-th on, for every `n` and
+every evaluation number below 2^64.  2^64 evaluations are not reachable: at 1 ns per evaluation they
+take 584 years.  (Beyond that the general closed form `iter_evalN` applies.) -/
+theorem iter_spec (env : Env) (henv : env.ctrMod = counterMod) (i n k : Nat) (s : St) (h : s.term i = false)
+    (h0 : s.cnt i = 0) (j : Nat) (hj : j < k) (hreach : j + 1 < 18446744073709551616) :
     (evalN env (.leaf i false (.iter n)) k s).1[j]? = some (decide (n < j + 1)) := by
-  rw [iter_evalN env i n k s h, h0]
-  simp [hj, Nat.mod_eq_of_lt hsmall]
+  rw [iter_evalN env i n k s h, h0, henv]
+  simp [hj, counterMod, Nat.mod_eq_of_lt hreach]
 
-/-- `timesCalled_` is an `unsigned int`: evaluation number 2^32 of an `n = 0` condition answers false
-although the property says true from evaluation 1 on (finding F16). -/
-theorem iter_spec_fails :
-    ¬ (∀ (env : Env) (i n k : Nat) (s : St), s.term i = false → s.cnt i = 0 → ∀ j, j < k →
+/-- the same between arbitrary batches of other operations -/
+theorem iter_spec_every_interleaving {α} [PNum α] (env : Env) (henv : env.ctrMod = counterMod) (i n : Nat)
+    (segs : List (List (Op α))) (w : World α) (ht : w.st.term i = false) (hcb : CbOk i w)
+    (hall : ∀ seg ∈ segs, ∀ op ∈ seg, NoTouch i op) (h0 : w.st.cnt i = 0)
+    (j : Nat) (hj : j < segs.length) (hreach : j + 1 < 18446744073709551616) :
+    (interleave env (.leaf i false (.iter n)) segs w).1[j]? = some (decide (n < j + 1)) := by
+  rw [iter_spec_interleaved env i n segs w ht hcb hall, h0, henv]
+  simp [hj, counterMod, Nat.mod_eq_of_lt hreach]
+
+/-- the code before /repo 354f9f45d (32-bit counter, `ctrMod = oldCounterMod`) did **not** satisfy
+`iter_spec`: evaluation number 2^32 of an `n = 0` condition answered false (finding F16, fixed). -/
+theorem iter_spec_old_fails :
+    ¬ (∀ (env : Env), env.ctrMod = oldCounterMod → ∀ (i n k : Nat) (s : St), s.term i = false → s.cnt i = 0 →
+        ∀ j, j < k → j + 1 < 18446744073709551616 →
         (evalN env (.leaf i false (.iter n)) k s).1[j]? = some (decide (n < j + 1))) := by
   intro hall
-  have h := hall ⟨fun _ _ => false, fun _ => 0⟩ 0 0 4294967296 {} rfl rfl 4294967295 (by decide)
+  have h := hall { pred := fun _ _ => false, clock := fun _ => 0, ctrMod := oldCounterMod } rfl
+    0 0 4294967296 {} rfl rfl 4294967295 (by decide) (by decide)
   rw [iter_evalN _ 0 0 4294967296 {} rfl] at h
-  simp [uintMod] at h
+  simp [oldCounterMod] at h
 
-example : (evalN ⟨fun _ _ => false, fun _ => 0⟩ (.leaf 0 false (.iter 2)) 5 {}).1 = [false, false, true, true, true] := by
+example : (evalN { pred := fun _ _ => false, clock := fun _ => 0 } (.leaf 0 false (.iter 2)) 5 {}).1 =
+    [false, false, true, true, true] := by
   decide
 
 /-- `reset()` and the object's own `eval()`: after a reset the object starts over -/
-theorem itc_reset (o : Itc) : o.reset.eval.1 = decide (o.max < 1) := by
-  simp [Itc.reset, Itc.eval, uintMod]
+theorem itc_reset (o : Itc) : (o.reset.eval counterMod).1 = decide (o.max < 1) := by
+  simp [Itc.reset, Itc.eval, counterMod]
 
 /-- `k` public `eval()` calls in a row are the closed form used by the driver's `itcspin` -/
-theorem itc_spin (o : Itc) (k : Nat) : (o.spin k).eval.2 = o.spin (k + 1) := Itc.spin_succ o k
+theorem itc_spin (m : Nat) (o : Itc) (k : Nat) : ((o.spin m k).eval m).2 = o.spin m (k + 1) :=
+  Itc.spin_succ m o k
 
 /-- the cast copies the counter: the new condition continues from the object's count and shares
 nothing with the object afterwards (the object is not part of the state). -/
 theorem itc_cast (env : Env) (o : Itc) (i : Nat) (s : St) (h : s.term i = false) :
-    (eval env (o.cast i false s).1 (o.cast i false s).2).1 = o.eval.1 := by
+    (eval env (o.cast i false s).1 (o.cast i false s).2).1 = (o.eval env.ctrMod).1 := by
   simp [Itc.cast, Itc.eval, eval, h, callLeaf]
 
 /-! ### timed conditions over an abstract monotone clock -/
@@ -278,8 +291,8 @@ theorem polled_catches_up (env : Env) (i id K : Nat) (s : St) (h : s.term i = fa
 theorem polled_stops (env : Env) (c : Cond) (s : St) (h : s.term c.impl = true) : poll env c s = s := by
   simp [poll, h]
 
-example : (eval ⟨fun _ _ => true, fun _ => 0⟩ (.leaf 0 true (.pred 0)) {}).1 = false ∧
-    (eval ⟨fun _ _ => true, fun _ => 0⟩ (.leaf 0 true (.pred 0)) (poll ⟨fun _ _ => true, fun _ => 0⟩ (.leaf 0 true (.pred 0)) {})).1 = true := by
+example : (eval { pred := fun _ _ => true, clock := fun _ => 0 } (.leaf 0 true (.pred 0)) {}).1 = false ∧
+    (eval { pred := fun _ _ => true, clock := fun _ => 0 } (.leaf 0 true (.pred 0)) (poll { pred := fun _ _ => true, clock := fun _ => 0 } (.leaf 0 true (.pred 0)) {})).1 = true := by
   decide
 
 /-! ### the exact-solution condition -/
@@ -298,7 +311,7 @@ theorem exactSoln_add (a : Bool) (s : St) : hasExact (addSoln a s).solns = (!a |
 theorem exactSoln_clear (s : St) : hasExact (clearSolns s).solns = false := by
   simp [clearSolns, hasExact]
 
-example : (eval ⟨fun _ _ => false, fun _ => 0⟩ (.leaf 0 false .exact) (addSoln false (addSoln true {}))).1 = true := by decide
+example : (eval { pred := fun _ _ => false, clock := fun _ => 0 } (.leaf 0 false .exact) (addSoln false (addSoln true {}))).1 = true := by decide
 
 /-! ### cost convergence `[EX over ℚ]`
 
